@@ -491,11 +491,10 @@ class Frame:
     def _loop_ordinal(self, s):
         if self.loop_ordinals is None:
             self.loop_ordinals = {}
-            k = 0
-            for n in ast.walk(self.fi.node):
-                if isinstance(n, (ast.For, ast.While)):
-                    self.loop_ordinals[id(n)] = k
-                    k += 1
+            loops = [n for n in ast.walk(self.fi.node) if isinstance(n, (ast.For, ast.While))]
+            loops.sort(key=lambda n: (n.lineno, n.col_offset))     # source order
+            for k, n in enumerate(loops):
+                self.loop_ordinals[id(n)] = k
         return self.loop_ordinals[id(s)]
 
     def iter_view(self, it):
@@ -596,7 +595,8 @@ class Frame:
         for x in ast.walk(s.target):
             if isinstance(x, ast.Name):
                 names.add(x.id)
-        pre = dict(self.env)
+        pre = {k_: (v_.copy() if isinstance(v_, Arr) else
+                    (list(v_) if isinstance(v_, list) else v_)) for k_, v_ in self.env.items()}
         itv = IterView(n, elem)
         c.assume(zi(n) >= 0)
         tag = f"loop{ordinal}"
@@ -1231,6 +1231,8 @@ class Frame:
             return item in container
         if isinstance(container, Arr):
             return N.any_(N.equal(container, item))
+        if isinstance(container, SetOf):
+            return N.any_(N.equal(container.arr, item))
         if isinstance(container, Obj):
             hook = self.I.models.get("contains:" + container.cls)
             if hook is not None:
@@ -1414,6 +1416,14 @@ class StarSeq:
         self.seq = seq
 
 
+class SetOf:
+    """set(<array>): only membership is supported (NaN is never a member: fresh scalar objects
+    compare by value and nan != nan)."""
+
+    def __init__(self, arr):
+        self.arr = Arr(arr.axes, arr.snapshot_fn(), arr.kind)
+
+
 class FuncInfoStub:
     """minimal FuncInfo for evaluating class-level expressions in their module."""
 
@@ -1495,12 +1505,14 @@ def assert_same(label, got, want, kind="post"):
         wl = want.length if isinstance(want, Seq) else len(want)
         gl = got.length if isinstance(got, Seq) else len(got)
         c.oblige(kind, label + ".len", sym.eq(gl, wl))
+        if (is_pyint(gl) and gl == 0) or (is_pyint(wl) and wl == 0):
+            return
         k = c.fresh_int("sk")
-        c.assume(z3.And(k >= 0, k < zi(wl), k < zi(gl)))
-        N.ground(k)
-        gv = got.get(k) if isinstance(got, Seq) else _sel_list(k, got)
-        wv = want.get(k) if isinstance(want, Seq) else _sel_list(k, want)
-        assert_same(label + "[k]", gv, wv, kind)
+        with c.hypothesis(z3.And(k >= 0, k < zi(wl), k < zi(gl))):
+            N.ground(k)
+            gv = got.get(k) if isinstance(got, Seq) else _sel_list(k, got)
+            wv = want.get(k) if isinstance(want, Seq) else _sel_list(k, want)
+            assert_same(label + "[k]", gv, wv, kind)
         return
     if isinstance(want, dict) and isinstance(got, dict):
         if set(want) != set(got):
@@ -1519,21 +1531,22 @@ def assert_same(label, got, want, kind="post"):
             return
         shape_ok = sym.And_(*[sym.eq(g, w) for g, w in zip(got.shape, want.shape)])
         c.oblige(kind, label + ".shape", shape_ok)
-        if not isinstance(shape_ok, bool) or shape_ok:
-            c.assume(shape_ok if not isinstance(shape_ok, bool) else True)
+        if shape_ok is False:
+            return
         if want.term is not None and got.term is not None:
             c.oblige(kind, label + ".term", want.term == got.term)
             return
-        idx = want.skolem("c")
-        for t in idx:
-            for i in t:
-                N.ground(i)
-        gi = []
-        for t, wa, ga in zip(idx, want.axes, got.axes):
-            gi.append(t if sym.same_axes(wa, ga) else sym.split_index(sym.flat_index(t, wa), ga))
-        gv = got.cell(tuple(gi))
-        wv = want.cell(idx)
-        assert_same(label + "[cell]", gv, wv, kind)
+        idx, rng = want.skolem("c", assume=False)
+        with c.hypothesis(sym.And_(shape_ok, rng)):
+            for t in idx:
+                if len(t) == 1:
+                    N.ground(t[0])
+            gi = []
+            for t, wa, ga in zip(idx, want.axes, got.axes):
+                gi.append(t if sym.same_axes(wa, ga) else sym.split_index(sym.flat_index(t, wa), ga))
+            gv = got.cell(tuple(gi))
+            wv = want.cell(idx)
+            assert_same(label + "[cell]", gv, wv, kind)
         return
     if is_scalar(want) and is_scalar(got):
         from .lemmas import sum_same
@@ -1749,6 +1762,10 @@ def builtin_call(fr: Frame, name, args, kwargs):
         raise Unsupported("round()")
     if name == "object":
         return Obj("object", {})
+    if name == "set":
+        if args and isinstance(args[0], Arr):
+            return SetOf(args[0])
+        raise Unsupported("set() of a non-array")
     raise Unsupported(f"builtin {name}")
 
 
